@@ -192,6 +192,18 @@ func Elem(base, k Term) Term {
 	return mk(SLoc, "elem", base, k)
 }
 
+// ElemS is the address of element idx of an array of elements that occupy sz cells each. For sz > 1 the index is
+// kept syntactic through elemn(base, idx, sz) (axiom: elemn(b,i,n) = loc(obj b, off b + i*n)).
+func ElemS(base, idx Term, sz int64) Term {
+	if sz == 1 {
+		return Elem(base, idx)
+	}
+	if idx.S == "0" {
+		return base
+	}
+	return mk(SLoc, "elemn", base, idx, IntLit(sz))
+}
+
 // Slice helpers
 func MkSlice(ptr, ln, cp Term) Term { return mk(SSlice, "slice", ptr, ln, cp) }
 func SPtr(s Term) Term              { return mk(SLoc, "sptr", s) }
